@@ -93,6 +93,21 @@ def systematic():
                     out.append(("rep", whole, parts))
             out.append(("rep", "x<" + inner + ":1,3>", ["x" + inner * k for k in (1, 2, 3)]))
             out.append(("rep", "{<" + inner + ":1,2>,b}", ["{" + inner + ",b}", "{" + inner * 2 + ",b}"]))
+    # alternatives (and combinator members) that are single characters or short literals under DIFFERENT case flags: every
+    # literal carries its own flag, whatever the flag of its neighbours
+    for a0, b0 in [("a", "b"), ("a", "B"), ("x", "y"), ("é", "b"), ("a", "1"), ("ab", "c"), ("k", "s")]:
+        for fa, fb in [("", "(?i)"), ("(?i)", "(?-i)"), ("(?-i)", "(?i)"), ("(?i)", "(?i)")]:
+            pa, pb = fa + a0, fb + b0
+            # (flags thread left to right through the branches and out of the group: what follows is caseless text, and a
+            # third branch states its flag)
+            for pre, post in [("", ""), ("x", ""), ("", "/1"), ("x/", ".2")]:
+                out.append(("alt", pre + "{" + pa + "," + pb + "}" + post, [pre + pa + post, pre + pb + post]))
+            fc = fa if fa else "(?-i)"
+            out.append(("alt", "{" + pa + "," + pb + "," + fc + "c}", [pa, pb, fc + "c"]))
+            out.append(("any", None, [pa, pb]))
+            out.append(("any-compiled", None, [pa, pb]))
+            out.append(("any-owned", None, [pb, pa]))
+            out.append(("any-nested", None, [pa, pb]))
     # combinators over NO patterns, alone and nested beside a member: the union of nothing is nothing
     out += [("any", None, []), ("any-compiled", None, []), ("any-owned", None, []), ("any-nested", None, []), ("any-nested", None, ["a"]),
             ("any-nested", None, ["a/**"]), ("any-nested", None, [""]), ("any-nested", None, ["*"]), ("any-nested", None, ["/**"])]
